@@ -671,4 +671,164 @@ theorem get_snd (s : Spec K V) (k : K) : (Spec.get s k).2 = Spec.find s k := by
 end spec
 
 
+/-- all addresses of a builder -/
+def Builder.addrs (b : Builder) : List String := b.a ++ b.aaaa
+
+/-- `x` is the address of an A/AAAA record in the answer section of `m`, a response (QR=1, RA=1)
+carrying one of the lookup's own two transaction ids -/
+def AddrIn (m : Msg) (x : String) : Prop :=
+  (m.id = idV4 ∨ m.id = idV6) ∧ m.response = true ∧ m.ra = true ∧
+    ∃ r ∈ m.answers, r.addr = x ∧ (r.kind = typeA ∨ r.kind = typeAAAA)
+
+theorem applyAns_addrs (now : Nat) (b : Builder) (r : Ans) (x : String) (hx : x ∈ (applyAns now b r).addrs) :
+    x ∈ b.addrs ∨ (r.addr = x ∧ (r.kind = typeA ∨ r.kind = typeAAAA)) := by
+  unfold applyAns at hx
+  dsimp only at hx
+  split at hx
+  · rename_i hk
+    simp only [Builder.addrs, List.mem_append, List.mem_singleton] at hx ⊢
+    rcases hx with (h | h) | h
+    · exact Or.inl (Or.inl h)
+    · exact Or.inr ⟨h.symm, Or.inl hk⟩
+    · exact Or.inl (Or.inr h)
+  · split at hx
+    · rename_i hk
+      simp only [Builder.addrs, List.mem_append, List.mem_singleton] at hx ⊢
+      rcases hx with h | h | h
+      · exact Or.inl (Or.inl h)
+      · exact Or.inl (Or.inr h)
+      · exact Or.inr ⟨h.symm, Or.inr hk⟩
+    · exact Or.inl hx
+
+theorem foldAns_addrs (now : Nat) (xs : List Ans) (b : Builder) (x : String)
+    (hx : x ∈ (xs.foldl (applyAns now) b).addrs) :
+    x ∈ b.addrs ∨ ∃ r ∈ xs, r.addr = x ∧ (r.kind = typeA ∨ r.kind = typeAAAA) := by
+  induction xs generalizing b with
+  | nil => exact Or.inl hx
+  | cons r rest ih =>
+    rcases ih (applyAns now b r) hx with h | ⟨r', hr', h⟩
+    · rcases applyAns_addrs now b r x h with h1 | h1
+      · exact Or.inl h1
+      · exact Or.inr ⟨r, by simp, h1⟩
+    · exact Or.inr ⟨r', by simp [hr'], h⟩
+
+theorem foldAuth_addrs (now : Nat) (xs : List (Bool × Nat)) (b : Builder) :
+    (xs.foldl (applyAuth now) b).addrs = b.addrs := by
+  induction xs generalizing b with
+  | nil => rfl
+  | cons y r ih =>
+    have h : (applyAuth now b y).addrs = b.addrs := by unfold applyAuth; split <;> rfl
+    simp only [List.foldl_cons]; rw [ih, h]
+
+theorem markDone_addrs (b : Builder) (id : Nat) : (markDone b id).addrs = b.addrs := by
+  unfold markDone; split
+  · rfl
+  · split <;> rfl
+
+theorem afterAnswers_addrs (b : Builder) (now : Nat) (m : Msg) (u : Bool) :
+    (afterAnswers b now m u).1.addrs = b.addrs := by
+  unfold afterAnswers
+  cases m.ansEnd with
+  | hdrErr => rfl
+  | bodyErr ttl => rfl
+  | done =>
+    have hf := foldAuth_addrs now m.auths b
+    have hs : ∀ soa ttl, (applyAuth now (m.auths.foldl (applyAuth now) b) (soa, ttl)).addrs = b.addrs := by
+      intro soa ttl
+      have : (applyAuth now (m.auths.foldl (applyAuth now) b) (soa, ttl)).addrs = (m.auths.foldl (applyAuth now) b).addrs := by
+        unfold applyAuth; split <;> rfl
+      rw [this, hf]
+    dsimp only
+    by_cases h1 : (soaOnlyIfZero && b.exp.isSome) = true
+    · simp only [h1, if_true, Bool.not_true, Bool.false_eq_true, if_false]
+      split
+      · exact markDone_addrs _ _
+      · rfl
+    · simp only [h1, Bool.false_eq_true, if_false]
+      cases m.authEnd with
+      | done =>
+        simp only [Bool.not_true, Bool.false_eq_true, if_false]
+        split
+        · rw [markDone_addrs]; exact hf
+        · exact hf
+      | hdrErr => simpa using hf
+      | skipErr soa ttl => simpa using hs soa ttl
+
+theorem parseBody_addrs (b : Builder) (now : Nat) (m : Msg) (u : Bool) (x : String)
+    (hx : x ∈ (parseBody b now m u).1.addrs) :
+    x ∈ b.addrs ∨ (m.response = true ∧ m.ra = true ∧ ∃ r ∈ m.answers, r.addr = x ∧ (r.kind = typeA ∨ r.kind = typeAAAA)) := by
+  rw [parseBody_eq] at hx
+  split at hx; · exact Or.inl hx
+  split at hx; · exact Or.inl hx
+  split at hx; · exact Or.inl hx
+  rename_i h1 h2 _
+  dsimp only at hx
+  have hb : (if rcodeFailure.contains m.rcode = true then { b with exp := failureExp b.exp now } else b).addrs = b.addrs := by
+    split <;> rfl
+  split at hx
+  · rw [hb] at hx; exact Or.inl hx
+  · rw [afterAnswers_addrs] at hx
+    rcases foldAns_addrs now m.answers _ x hx with h | h
+    · rw [hb] at h; exact Or.inl h
+    · exact Or.inr ⟨by simpa using h1, by simpa using h2, h⟩
+
+theorem idCheck_addrs (b b' : Builder) (id : Nat) (d : Bool) (h : idCheck b id = some (b', d)) (x : String)
+    (hx : x ∈ b'.addrs) : x ∈ b.addrs ∧ (id = idV4 ∨ id = idV6) := by
+  unfold idCheck at h
+  split at h
+  · rename_i hid
+    split at h
+    · cases h; exact ⟨hx, Or.inl hid⟩
+    · cases h
+      simp only [Builder.addrs, List.nil_append] at hx
+      exact ⟨by simp [Builder.addrs, hx], Or.inl hid⟩
+  · split at h
+    · rename_i hid
+      split at h
+      · cases h; exact ⟨hx, Or.inr hid⟩
+      · cases h
+        simp only [Builder.addrs, List.append_nil] at hx
+        exact ⟨by simp [Builder.addrs, hx], Or.inr hid⟩
+    · cases h
+
+theorem parseMsg_addrs (b : Builder) (now : Nat) (w : Wire) (u : Bool) (x : String)
+    (hx : x ∈ (parseMsg b now w u).1.addrs) : x ∈ b.addrs ∨ ∃ m, w = .msg m ∧ AddrIn m x := by
+  unfold parseMsg at hx
+  cases w with
+  | garbage => exact Or.inl hx
+  | msg m =>
+    dsimp only at hx
+    cases hi : idCheck b m.id with
+    | none => simp only [hi] at hx; exact Or.inl hx
+    | some r =>
+      obtain ⟨b', d⟩ := r
+      cases d with
+      | true => simp only [hi] at hx; exact Or.inl (idCheck_addrs b b' m.id true hi x hx).1
+      | false =>
+        simp only [hi] at hx
+        rcases parseBody_addrs b' now m u x hx with h | ⟨h1, h2, h3⟩
+        · exact Or.inl (idCheck_addrs b b' m.id false hi x h).1
+        · -- the id: idCheck succeeded
+          have hid : m.id = idV4 ∨ m.id = idV6 := by
+            unfold idCheck at hi
+            by_cases h4 : m.id = idV4
+            · exact Or.inl h4
+            · by_cases h6 : m.id = idV6
+              · exact Or.inr h6
+              · simp [h4, h6] at hi
+          exact Or.inr ⟨m, rfl, hid, h1, h2, h3⟩
+
+theorem feed_addrs (tr : List (Nat × Wire × Bool)) (b : Builder) (x : String) (hx : x ∈ (feed b tr).addrs) :
+    x ∈ b.addrs ∨ ∃ e ∈ tr, ∃ m, e.2.1 = .msg m ∧ AddrIn m x := by
+  induction tr generalizing b with
+  | nil => exact Or.inl hx
+  | cons e rest ih =>
+    obtain ⟨now, w, u⟩ := e
+    rcases ih _ hx with h | ⟨e', he', h⟩
+    · rcases parseMsg_addrs b now w u x h with h1 | ⟨m, hm, h1⟩
+      · exact Or.inl h1
+      · exact Or.inr ⟨(now, w, u), by simp, m, hm, h1⟩
+    · exact Or.inr ⟨e', by simp [he'], h⟩
+
+
 end SSV.Dns
